@@ -4247,6 +4247,10 @@ Case_BaseLdurStur:
           if (q > 1 || !Support::bit_test(kValidEncodings, (q << 3) | element_type))
             goto InvalidInstruction;
 
+          // The size comes from the destination, so the element that is duplicated has to be of that type.
+          if (uint32_t(o1.as<Vec>().element_type()) != element_type)
+            goto InvalidInstruction;
+
           uint32_t lsb_index = element_type - 1u;
           uint32_t imm5 = ((dst_index << 1) | 1u) << lsb_index;
 
